@@ -3,7 +3,7 @@ import Rivaas.Model.Compiler
 import Rivaas.Spec.CompiledClass
 /-
 Driver for C11. Case line:
-  <id> <compiled> <bloomSize> <bloomK> <versioned> <input as C01> => <obs plain engine> <obs configured engine>
+  <id> <compiled> <bloomSize> <bloomK> <versioned> <warmAt+1 or 0> <input as C01> => <obs plain engine> <obs configured engine>
 MI : Model/Radix `serve` (or the versioned variant with default options) reproduces the plain observation
      and Model/Compiler `serveWith` reproduces the observation of the configured engine.
 S  : the two *implementation* observations are equal (the oracle of C11 is the tree engine itself).
@@ -21,7 +21,8 @@ def pOpts : P Opts := do
   let s ← nat
   let k ← nat
   let v ← bool
-  pure { compiled := c, bloomSize := s, bloomK := k, versioned := v }
+  let w ← nat   -- 0: no explicit Warmup(); k+1: Warmup() before the k-th registration
+  pure { compiled := c, bloomSize := s, bloomK := k, versioned := v, warmAt := if w = 0 then none else some (w - 1) }
 
 def step (line : String) : String :=
   match splitCase line with
@@ -31,7 +32,7 @@ def step (line : String) : String :=
           runP (do let a ← pObs; let b ← pObs; pure (a, b)) obs with
     | some (o, c), some (oa, ob) =>
       let sat := satOf c.satTab
-      let base : Opts := { compiled := false, bloomSize := 0, bloomK := 0, versioned := o.versioned }
+      let base : Opts := { compiled := false, bloomSize := 0, bloomK := 0, versioned := o.versioned, warmAt := o.warmAt }
       let ma := serveWith fnv64a sat base c.script c.noRoute c.req
       let mb := serveWith fnv64a sat o c.script c.noRoute c.req
       let mi := oa == some ma && ob == some mb
